@@ -400,7 +400,17 @@ func foreignMarkers(got string, sel []int, rn *runner) string {
 		}
 	}
 	for _, m := range markerRe.FindAllString(got, -1) {
-		if !own[m] {
+		if own[m] {
+			continue
+		}
+		// header / footer exclusion works on fragments and may cut the tail off a marker
+		// ("#301" -> "#3" when "01" repeats at the same place on every page): what is left is
+		// still the beginning of one of the selected pages' markers
+		cut := false
+		for o := range own {
+			cut = cut || strings.HasPrefix(o, m)
+		}
+		if !cut {
 			return m
 		}
 	}
